@@ -169,7 +169,11 @@ func genConj(r *Rand, o *docsetOpts) eConj {
 		if r.Chance(80) && nv == 0 {
 			nv = 1
 		}
-		cj = append(cj, eExpr{F: f, Inc: r.Chance(70), V: o.valueShape(r, randVals(r, nv, o.alphaOr(6)))})
+		v := o.valueShape(r, randVals(r, nv, o.alphaOr(6)))
+		if nv == 0 && r.Bool() { // a NIL slice of a supported type lists nothing either (`var vs []int` and no append)
+			v = TV{T: pick(r, []string{"[]int", "[]string", "[]int64", "[]interface{}"}), Nil: true}
+		}
+		cj = append(cj, eExpr{F: f, Inc: r.Chance(70), V: v})
 	}
 	return cj
 }
